@@ -1005,6 +1005,9 @@ def _opt_eq(ctx, a, c):
         return lower(as_str(ctx, px)) == lower(as_str(ctx, py))
     if is_z3(px) and is_z3(py):
         return px == py
+    if isinstance(px, (Enum, Agg)) and isinstance(py, (Enum, Agg)):
+        # payloads with a derived PartialEq (plain enums / structs of the crate)
+        return z3.simplify(_structural_eq(ctx, px, py))
     raise Inconclusive(f"Option equality on {px!r}")
 
 
@@ -1529,7 +1532,116 @@ def _iter_next(ctx, a, c):
     return none()
 
 
-@model("<Iter as IntoIterator>::into_iter", "<Enumerate as IntoIterator>::into_iter", "<IntoIter as IntoIterator>::into_iter", doc="core: iterators are their own IntoIterator")
+class FromFnV:
+    """core::iter::from_fn(f): every pull calls the closure"""
+
+    def __init__(self, f):
+        self.f = f
+
+    def pull(self, ctx):
+        r = call_closure(ctx, self.f, [])
+        o = need_opt(r)
+        return o.f[0] if is_some(o) else None
+
+
+class TakeWhileV:
+    """core::iter::TakeWhile: lazy; the first item that fails the predicate ends the iteration and is dropped"""
+
+    def __init__(self, it, pred):
+        self.it, self.pred, self.done = it, pred, False
+
+    def pull(self, ctx):
+        if self.done:
+            return None
+        x = pull_item(ctx, self.it)
+        if x is None:
+            return None
+        if ctx.branch(call_closure(ctx, self.pred, [Ref(Cell(x, "take_while-arg"))]), "take_while predicate"):
+            return x
+        self.done = True
+        ctx.drop_value(x)
+        return None
+
+
+class ChainV:
+    """core::iter::Chain: the first iterator, then the second"""
+
+    def __init__(self, a, b):
+        self.a, self.b = a, b
+
+    def pull(self, ctx):
+        if self.a is not None:
+            x = pull_item(ctx, self.a)
+            if x is not None:
+                return x
+            self.a = None
+        return pull_item(ctx, self.b)
+
+
+@model("Iterator::chain", doc="core: items of the receiver, then the items of the argument (any IntoIterator modelled here: iterators and Options)")
+def _iter_chain(ctx, a, c):
+    b = a[1]
+    if isinstance(b, Enum) and b.variant in ("Some", "None"):
+        b = IterV([b.f[0]] if is_some(b) else [])
+    return ChainV(a[0], b)
+
+
+def pull_item(ctx, it):
+    """next item of any modelled iterator, or None"""
+    hops = 0
+    while isinstance(it, Ref) and hops < 3:
+        it = ctx.load(it)
+        hops += 1
+    if isinstance(it, IterV):
+        if it.pos < len(it.items):
+            it.pos += 1
+            return it.items[it.pos - 1]
+        return None
+    if hasattr(it, "pull"):
+        return it.pull(ctx)
+    raise Inconclusive("iteration over " + repr(it))
+
+
+@model("iter::from_fn", doc="core: iterator whose next() calls the closure")
+def _iter_from_fn(ctx, a, c):
+    return FromFnV(a[0])
+
+
+@model("Iterator::take_while", doc="core: lazily yields items while the predicate holds; the first failing item is consumed and dropped")
+def _iter_take_while(ctx, a, c):
+    return TakeWhileV(a[0], a[1])
+
+
+@model("Iterator::find_map", doc="core: first Some(..) the closure returns; items for which it returns None are consumed")
+def _iter_find_map(ctx, a, c):
+    while True:
+        x = pull_item(ctx, a[0])
+        if x is None:
+            return none()
+        r = need_opt(call_closure(ctx, a[1], [x]))
+        if is_some(r):
+            return r
+
+
+@model("Iterator::next", "<FromFn as Iterator>::next", "<TakeWhile as Iterator>::next", "<Chain as Iterator>::next", doc="core: next element of a lazy adapter")
+def _lazy_next(ctx, a, c):
+    x = pull_item(ctx, a[0])
+    return none() if x is None else some(x)
+
+
+@model("<Option as IntoIterator>::into_iter", "Option::into_iter", doc="core: an Option iterates over its zero or one value")
+def _opt_into_iter(ctx, a, c):
+    o = need_opt(a[0])
+    return IterV([o.f[0]] if is_some(o) else [])
+
+
+@model("Option::and", doc="core: None if self is None, otherwise the other option")
+def _opt_and(ctx, a, c):
+    return a[1] if is_some(need_opt(a[0])) else none()
+
+
+@model("<Iter as IntoIterator>::into_iter", "<Enumerate as IntoIterator>::into_iter", "<IntoIter as IntoIterator>::into_iter", "<FromFn as IntoIterator>::into_iter", "<TakeWhile as IntoIterator>::into_iter", "<Chain as IntoIterator>::into_iter",
+       doc="core: iterators are their own IntoIterator")
 def _iter_into_iter(ctx, a, c):
     return a[0]
 
